@@ -642,7 +642,7 @@ func parseDateParts(dateString string, isEndOfRange bool) Date {
 	}
 
 	day := Atoi(parts[dayPos])
-	month := time.Month(months[monthName])
+	month, isKnownMonth := months[monthName]
 	year := Atoi(parts[yearPos])
 
 	// Check the date is valid.
@@ -653,6 +653,16 @@ func parseDateParts(dateString string, isEndOfRange bool) Date {
 			IsEndOfRange: isEndOfRange,
 			Constraint:   DateConstraintFromString(parts[constraintPos]),
 			ParseError:   err,
+		}
+	}
+
+	// A word that is not a month must not be ignored, otherwise "Foo 1943"
+	// would silently become "1943".
+	if parts[monthPos] != "" && !isKnownMonth {
+		return Date{
+			IsEndOfRange: isEndOfRange,
+			Constraint:   DateConstraintFromString(parts[constraintPos]),
+			ParseError:   fmt.Errorf("the month is unknown: %s", monthName),
 		}
 	}
 
